@@ -16,6 +16,14 @@ Inductive scan_res :=
 
 Definition is_blank (c : byte) : bool := (c =? 32) || (c =? 9).
 
+Inductive res (A : Type) := Ok (a : A) | Err.
+Arguments Ok {A}. Arguments Err {A}.
+
+Section Reader.
+(* [wl]: the reader of -I - an argument is a whole line: quotes, backslashes and the blanks before the first character are
+   treated as usual, but a blank inside the line does not end the argument *)
+Variable wl : bool.
+
 (* the match over (escape, pending[i]) over one buffer; [ia] is in_argument: a quote was opened or a byte was pushed;
    [eb]: the byte just taken was a blank quoted by a backslash - a line ending in a blank continues on the next one *)
 Fixpoint scan (e : esc) (acc : list byte) (ia eb : bool) (buf : list byte) : scan_res :=
@@ -28,13 +36,11 @@ Fixpoint scan (e : esc) (acc : list byte) (ia eb : bool) (buf : list byte) : sca
       | ENone =>
           if is_quote c then scan (EQuote c) acc true false buf'
           else if c =? 92 then scan ESlash acc ia false buf'
-          else if is_ws c then (if ia then Done acc ((c =? 10) && negb eb) buf' else scan ENone acc ia false buf')
+          else if is_ws c && negb (wl && ia && negb (c =? 10))
+          then (if ia then Done acc ((c =? 10) && negb eb) buf' else scan ENone acc ia false buf')
           else scan ENone (acc ++ [c]) true false buf'
       end
   end.
-
-Inductive res (A : Type) := Ok (a : A) | Err.
-Arguments Ok {A}. Arguments Err {A}.
 
 (* refill loop: each element of [chunks] is what one read() returned; [] = end of file *)
 Fixpoint refill (e : esc) (acc : list byte) (ia eb : bool) (chunks : list (list byte))
@@ -85,6 +91,8 @@ Fixpoint flat_all (fuel : nat) (data : list byte) : res (list (list byte * bool)
 (* entry point used by the correspondence check: enough fuel for any input *)
 Definition ws_read (chunks : list (list byte)) : res (list (list byte * bool)) :=
   read_all (S (S (length (concat chunks)))) [] chunks.
+
+End Reader.
 
 (* ---- ByteDelimitedArgumentReader ---- *)
 (* BufRead::read_until: the bytes up to and including the first delimiter, or everything *)
